@@ -15,7 +15,7 @@ import (
 	"verifharness/internal/val"
 )
 
-var c16Floor = []string{"tpl.echo", "tpl.where", "tpl.in", "tpl.between", "tpl.func", "tpl.limit", "tpl.adjacent", "tpl.repeat", "tpl.protected.single", "tpl.protected.double", "tpl.protected.backtick", "tpl.protected.comment", "tpl.pg-ident", "comment.tab", "comment.backslash-eol",
+var c16Floor = []string{"tpl.echo", "tpl.where", "tpl.in", "tpl.between", "tpl.func", "tpl.limit", "tpl.adjacent", "tpl.repeat", "tpl.protected.single", "tpl.protected.double", "tpl.protected.backtick", "tpl.protected.comment", "tpl.pg-ident", "comment.tab", "comment.backslash-eol", "arg.float.huge", "err.missing.huge",
 	"arg.string", "arg.int", "arg.negint", "arg.float", "arg.bool", "arg.nil", "str.quote", "str.backslash", "str.comment", "str.control", "str.keyword", "str.multibyte", "err.missing", "err.unused", "err.dollar0", "prepared", "concurrent"}
 
 func init() {
@@ -85,8 +85,14 @@ func c16Arg(c *fw.Case, kind string, feats *[]string) any {
 	case "string":
 		return c16String(c, feats)
 	case "int":
+		if c.Chance(0.05) {
+			return gen.Pick(c.R, []int64{math.MaxInt64, math.MaxInt64 - 1, 1 << 53, 1<<53 + 1})
+		}
 		return int64(c.Intn(1000000))
 	case "negint":
+		if c.Chance(0.05) {
+			return gen.Pick(c.R, []int64{math.MinInt64, math.MinInt64 + 1, -(1 << 53) - 1})
+		}
 		return -int64(1 + c.Intn(1000000))
 	case "posint":
 		return int64(c.Intn(6))
@@ -94,6 +100,11 @@ func c16Arg(c *fw.Case, kind string, feats *[]string) any {
 		f := float64(c.Intn(2000001)-1000000) / 64
 		if c.Chance(0.2) {
 			f = math.Ldexp(float64(1+c.Intn(1000)), c.Intn(60)-30)
+		}
+		if c.Chance(0.08) {
+			// whole doubles beyond the int64 range and at its edges
+			f = gen.Pick(c.R, []float64{1e19, 1e21, -1e19, 9223372036854775808, -9223372036854775808, 18446744073709551616, math.MaxFloat64, -math.MaxFloat64, 1e300, 4611686018427387904})
+			*feats = append(*feats, "arg.float.huge")
 		}
 		return f
 	case "bool":
@@ -519,6 +530,12 @@ func c16Errors(c *fw.Case, force string) {
 	switch force {
 	case "err.missing":
 		tpl = "SELECT $1 AS a, $2 AS b, $" + fmt.Sprint(3+c.Intn(5)) + " AS c FROM dual"
+		if c.Chance(0.4) {
+			// placeholder numbers at and beyond the width of an int name no argument
+			tpl = "SELECT $1 AS a, $2 AS b, $" + gen.Pick(c.R, []string{"9223372036854775807", "9223372036854775808", "18446744073709551615", "18446744073709551616", "18446744073709551617", "18446744073709551618",
+				"99999999999999999999", "36893488147419103233", "000000000000000000003"}) + " AS c FROM dual"
+			c.Feature("err.missing.huge")
+		}
 		args = []any{c16Arg(c, "", &fs), c16Arg(c, "", &fs)}
 	case "err.unused":
 		tpl = "SELECT $1 AS a FROM dual"
